@@ -462,6 +462,14 @@ func main() {
 				}
 				s.send(dataSet(r, tid, tmpls[tid], n, maxVar, limit))
 			}
+			// a template set with two template records, then data for each of them
+			{
+				a, b := randTemplate(r, 6), randTemplate(r, 6)
+				ta, tb := 700+i*2, 701+i*2
+				s.send(setDesc{stype: "template", hdrID: 2, recs: []rec{{tid: ta, ies: a}, {tid: tb, ies: b}}})
+				s.send(dataSet(r, tb, b, 1+r.Intn(3), 50, limit))
+				s.send(dataSet(r, ta, a, 1+r.Intn(3), 50, limit))
+			}
 			// a message of exactly the maximum size
 			if proto == "tcp" {
 				s.send(tmplSet(999, []*entities.InfoElement{u8, str}))
